@@ -12,6 +12,7 @@ package main
 
 import (
 	"context"
+	"encoding/binary"
 	"fmt"
 	"io"
 	"math/rand"
@@ -22,6 +23,7 @@ import (
 	"sync"
 
 	"github.com/gauss-project/aurorafs/pkg/boson"
+	"github.com/gauss-project/aurorafs/pkg/cac"
 	"github.com/gauss-project/aurorafs/pkg/file/loadsave"
 	"github.com/gauss-project/aurorafs/pkg/file/pipeline"
 	"github.com/gauss-project/aurorafs/pkg/file/pipeline/builder"
@@ -153,6 +155,119 @@ func (r *planReader) Read(p []byte) (int, error) {
 	return n, nil
 }
 
+// handTree writes the chunk tree of a file without streaming its bytes: the same
+// level-buffer algorithm as the pipeline's trie writer (a level of Branches references
+// is wrapped into an intermediate chunk, Sum carries a lone reference up), over
+// content-addressed chunks made with pkg/cac.  Equal chunks are made and Put once, so
+// a file of k*Branches+1 chunks of repeated content costs a handful of hashes and no
+// memory.  Plain files only.
+type handRef struct {
+	addr []byte
+	span uint64
+}
+
+type handTree struct {
+	ctx    context.Context
+	st     *recStore
+	leaves map[[2]int]handRef
+	inner  map[string]handRef
+	levels [9][]handRef
+}
+
+func (h *handTree) leaf(c, l int) (handRef, error) {
+	if r, ok := h.leaves[[2]int{c, l}]; ok {
+		return r, nil
+	}
+	ch, err := cac.New(block(c)[:l])
+	if err != nil {
+		return handRef{}, err
+	}
+	if _, err := h.st.Put(h.ctx, storage.ModePutUpload, ch); err != nil {
+		return handRef{}, err
+	}
+	r := handRef{ch.Address().Bytes(), uint64(l)}
+	h.leaves[[2]int{c, l}] = r
+	return r, nil
+}
+
+func (h *handTree) wrap(level int) error {
+	refs := h.levels[level]
+	buf := make([]byte, boson.SpanSize, boson.SpanSize+len(refs)*boson.HashSize)
+	var span uint64
+	for _, r := range refs {
+		span += r.span
+		buf = append(buf, r.addr...)
+	}
+	binary.LittleEndian.PutUint64(buf[:boson.SpanSize], span)
+	r, ok := h.inner[string(buf)]
+	if !ok {
+		ch, err := cac.NewWithDataSpan(buf)
+		if err != nil {
+			return err
+		}
+		if _, err := h.st.Put(h.ctx, storage.ModePutUpload, ch); err != nil {
+			return err
+		}
+		r = handRef{ch.Address().Bytes(), span}
+		h.inner[string(buf)] = r
+	}
+	h.levels[level] = nil
+	return h.write(level+1, r)
+}
+
+func (h *handTree) write(level int, r handRef) error {
+	if level > 8 {
+		return fmt.Errorf("hand tree: too many levels")
+	}
+	h.levels[level] = append(h.levels[level], r)
+	if len(h.levels[level]) == boson.Branches {
+		return h.wrap(level)
+	}
+	return nil
+}
+
+// sum finishes the tree and returns the root reference.
+func (h *handTree) sum() (boson.Address, error) {
+	for i := 1; i < 8; i++ {
+		switch n := len(h.levels[i]); {
+		case n == 0:
+		case n == 1:
+			h.levels[i+1] = append(h.levels[i+1], h.levels[i]...)
+			h.levels[i] = nil
+		default:
+			if err := h.wrap(i); err != nil {
+				return boson.ZeroAddress, err
+			}
+		}
+	}
+	if len(h.levels[8]) != 1 {
+		return boson.ZeroAddress, fmt.Errorf("hand tree: %d references at the top level", len(h.levels[8]))
+	}
+	return boson.NewAddress(h.levels[8][0].addr), nil
+}
+
+func writeByHand(ctx context.Context, st *recStore, r *planReader) (boson.Address, error) {
+	h := &handTree{ctx: ctx, st: st, leaves: map[[2]int]handRef{}, inner: map[string]handRef{}}
+	n := r.total()
+	for i := 0; i < n; i++ {
+		c, l := r.bigID, boson.ChunkSize
+		if i >= r.big {
+			c = r.pat[i-r.big]
+		}
+		if i == n-1 {
+			l = r.tailLen
+		}
+		lf, err := h.leaf(c, l)
+		if err != nil {
+			return boson.ZeroAddress, err
+		}
+		if err := h.write(1, lf); err != nil {
+			return boson.ZeroAddress, err
+		}
+	}
+	return h.sum()
+}
+
 const letters = "?abc/"
 
 func pathOf(v interface{}) (string, error) {
@@ -224,6 +339,7 @@ func run(sc kit.Scenario, out *kit.Out) error {
 	var root boson.Address
 	haveRoot := false
 	bigFile := false
+	bareHand := false
 
 	out.Begin(sc.Scn, kit.Ev{"enc": enc, "err": "", "panicked": false})
 	for _, op := range sc.Ops {
@@ -251,16 +367,24 @@ func run(sc kit.Scenario, out *kit.Out) error {
 			default:
 				return fmt.Errorf("bad tail class %d", tail)
 			}
-			bigFile = bigFile || a > 0
+			bigFile = bigFile || (a > 0 && !kit.Bool(op, "hand"))
 			if r.total() == 0 {
 				return fmt.Errorf("scenario %d: file without chunks", sc.Scn)
 			}
+			hand := kit.Bool(op, "hand")
+			if hand && (enc || tail == 0) {
+				return fmt.Errorf("scenario %d: hand-written trees are plain, non-empty files", sc.Scn)
+			}
 			var ref boson.Address
 			pan, msg := kit.Guard(func() {
+				if hand {
+					ref, perr = writeByHand(ctx, st, r)
+					return
+				}
 				p := builder.NewPipelineBuilder(ctx, st, storage.ModePutUpload, enc)
 				ref, perr = builder.FeedPipeline(ctx, p, r)
 			})
-			ev["f"], ev["nchunks"], ev["tail"] = f, r.total(), tail
+			ev["f"], ev["nchunks"], ev["tail"], ev["hand"] = f, r.total(), tail, hand
 			ev["w"] = st.takePuts()
 			if pan {
 				ev["panicked"], ev["err"] = true, msg
@@ -269,6 +393,7 @@ func run(sc kit.Scenario, out *kit.Out) error {
 			} else {
 				refs[f] = ref
 				root, haveRoot = ref, true
+				bareHand = hand && a > 0
 				ev["reflen"] = len(ref.Bytes())
 				ev["root"] = tab.of(ref.Bytes()[:boson.HashSize])
 			}
@@ -319,10 +444,14 @@ func run(sc kit.Scenario, out *kit.Out) error {
 				ev["err"] = errs(perr)
 			} else {
 				root, haveRoot = ref, true
+				bareHand = false
 				ev["reflen"] = len(ref.Bytes())
 				ev["root"] = tab.of(ref.Bytes()[:boson.HashSize])
 			}
 		case "traverse":
+			if bareHand {
+				return fmt.Errorf("scenario %d: a hand-written multi-level file is only observed inside a directory", sc.Scn)
+			}
 			if !haveRoot {
 				return fmt.Errorf("scenario %d: nothing to traverse", sc.Scn)
 			}
@@ -337,6 +466,9 @@ func run(sc kit.Scenario, out *kit.Out) error {
 				ev["err"] = errs(perr)
 			}
 		case "hashes":
+			if bareHand {
+				return fmt.Errorf("scenario %d: a hand-written multi-level file is only observed inside a directory", sc.Scn)
+			}
 			if !haveRoot {
 				return fmt.Errorf("scenario %d: nothing to traverse", sc.Scn)
 			}
@@ -355,6 +487,9 @@ func run(sc kit.Scenario, out *kit.Out) error {
 				ev["err"] = errs(perr)
 			}
 		case "pyramid":
+			if bareHand {
+				return fmt.Errorf("scenario %d: a hand-written multi-level file is only observed inside a directory", sc.Scn)
+			}
 			if !haveRoot {
 				return fmt.Errorf("scenario %d: nothing to traverse", sc.Scn)
 			}
